@@ -45,9 +45,12 @@ class TArr(CT):
     def __repr__(s): return "arr(%r,%d)" % (s.el, s.n)
     def size(s): return s.el.size() * s.n
 class TVec(CT):
+    # lane-generic translation: a vector *is* the element of one lane, also for the layout of the structs,
+    # unions and arrays that contain it (set per manifest entry by translate_entry)
+    GENERIC = False
     def __init__(s, el, n): s.el, s.n = el, n
     def __repr__(s): return "vec(%r,%d)" % (s.el, s.n)
-    def size(s): return s.el.size() * s.n
+    def size(s): return s.el.size() * (1 if TVec.GENERIC else s.n)
 class TRec(CT):
     def __init__(s, kind, fields, name=""): s.kind, s.fields, s.name = kind, fields, name  # fields: list (name, CT)
     def __repr__(s): return "%s %s" % (s.kind, s.name)
@@ -450,6 +453,21 @@ class Exec:
                 iv = self.rvalue(n["inner"][1], env)
                 if not iv.e.is_const(): raise TranslateError("symbolic vector lane index")
                 return ("vlane", b0["referencedDecl"]["name"], iv.e.val)
+        if k == "ArraySubscriptExpr":
+            # element of a vector that lives in a memory object (`state.row[0][3]`): explicit lanes only
+            b1 = n["inner"][0]
+            while b1.get("kind") in ("ParenExpr", "ImplicitCastExpr") and b1.get("castKind") in (None, "NoOp", "LValueToRValue") and b1.get("inner"): b1 = b1["inner"][0]
+            try:
+                bt = self.tu.ctype(b1["type"])
+            except Exception:
+                bt = None
+            if isinstance(bt, TVec) and b1.get("kind") in ("MemberExpr", "ArraySubscriptExpr", "UnaryOperator"):
+                if TVec.GENERIC: raise TranslateError("vector element access in lane-generic mode")
+                blv = self.lvalue(b1, env)
+                if blv[0] == "mem":
+                    iv = self.rvalue(n["inner"][1], env)
+                    if not iv.e.is_const(): raise TranslateError("symbolic vector lane index")
+                    return ("mem", blv[1], blv[2] + iv.e.val * bt.el.size(), bt.el)
         if k == "DeclRefExpr":
             nm = n["referencedDecl"]["name"]
             if nm in env:
@@ -521,7 +539,7 @@ class Exec:
             return Val(v.ct.el, v.e)          # uniform (lane-generic) vector: every lane is the generic lane
         if lv[0] == "var":
             v = env[lv[1]]
-            if v.e is not None and v.e.op == "undef":
+            if v.e is not None and not isinstance(v.e, VecL) and v.e.op == "undef":
                 raise TranslateError("read of uninitialised local " + lv[1])
             return v
         if lv[0] == "mem":
@@ -532,7 +550,12 @@ class Exec:
             if obj.name in self.param_objs:
                 self.io.append(("read", obj.name, off, n))
             if isinstance(ct, TVec):
-                raise TranslateError("whole-vector load from memory is handled by vector parameters only")
+                if obj.name in self.param_objs and not getattr(self, "explicit_lanes", False):
+                    raise TranslateError("whole-vector load from a caller's buffer in lane-generic mode")
+                if TVec.GENERIC:
+                    return Val(ct, obj.read(off, ct.el.size(), self.W))          # the element of the generic lane
+                elsz = ct.el.size()
+                return Val(ct, VecL([obj.read(off + i_ * elsz, elsz, self.W) for i_ in range(ct.n)]))
             e = obj.read(off, n, self.W)
             if self.lane is not None:
                 raise TranslateError("memory objects are not supported in lane mode")
@@ -926,7 +949,7 @@ class Exec:
                         if size is None or a.ptr[1] < 0 or a.ptr[1] + size > a.ptr[0].size: ok = False; break
                         cargs.append(("objread", a.ptr[0], a.ptr[1], size)); continue
                     ok = False; break
-                if a.e is None: ok = False; break
+                if a.e is None or isinstance(a.e, VecL): ok = False; break      # explicit lanes: inline the callee instead
                 cargs.append(self.atom(a.e, "a"))
             if not ok: continue
             cargs = [self.atom(c[1].read(c[2], c[3], self.W), "a") if isinstance(c, tuple) else c for c in cargs]
@@ -1292,6 +1315,7 @@ def translate(tu, ent, registry, sigs, lane=None, probe=False):
     ex.assigned = assigned_names(f, set())
     ex.windows = ent.get("windows", {})
     ex.explicit_lanes = ent.get("veclanes") == "explicit"
+    TVec.GENERIC = not ex.explicit_lanes
     params = [c for c in f.get("inner", []) if c.get("kind") == "ParmVarDecl"]
     args, sig, objs = [], [], []
     pspec = ent.get("params", {})
